@@ -228,12 +228,21 @@ func isIndexAlias(t types.Type) bool {
 // walkIndices visits the integers stored in slots declared as glTF ids (GltfId, *GltfId,
 // []GltfId, map[string]GltfId) inside av.
 func walkIndices(st *State, av AV, t types.Type, slot string, depth int, visit func(p Poly, slot string), ptrVisit func(p AV, slot string)) {
+	walkIndicesK(st, av, t, slot, "", depth, func(p Poly, slot, key string) { visit(p, slot) }, func(p AV, slot, key string) {
+		if ptrVisit != nil {
+			ptrVisit(p, slot)
+		}
+	})
+}
+
+// walkIndicesK is walkIndices with the "Struct.Field" key of the slot (for the glTF reference table).
+func walkIndicesK(st *State, av AV, t types.Type, slot, key string, depth int, visit func(p Poly, slot, key string), ptrVisit func(p AV, slot, key string)) {
 	if depth > 6 || av == nil || t == nil {
 		return
 	}
 	if isIndexAlias(t) {
 		if n, ok := av.(Num); ok {
-			visit(n.P, slot)
+			visit(n.P, slot, key)
 		}
 		return
 	}
@@ -241,13 +250,13 @@ func walkIndices(st *State, av AV, t types.Type, slot string, depth int, visit f
 	case *types.Pointer:
 		if isIndexAlias(u.Elem()) {
 			if _, isPtr := av.(Ptr); !isPtr && ptrVisit != nil {
-				ptrVisit(av, slot)
+				ptrVisit(av, slot, key)
 			}
 			if p, ok := av.(Ptr); ok && !p.Obj.Opaque {
 				ct, fld := typeAtPath(p.Obj.T, p.Path)
 				if ct != nil {
 					if n, ok := st.mem.read(p.Obj, p.Path, ct, fld).(Num); ok {
-						visit(n.P, slot)
+						visit(n.P, slot, key)
 					}
 				}
 			}
@@ -257,14 +266,19 @@ func walkIndices(st *State, av AV, t types.Type, slot string, depth int, visit f
 		if !ok {
 			return
 		}
+		owner := ""
+		if n := ssau.NamedOf(t); n != nil {
+			owner = n.Obj().Name()
+		}
 		for i := 0; i < u.NumFields() && i < len(sv.F); i++ {
 			name := u.Field(i).Name()
+			k := owner + "." + name
 			if !u.Field(i).Embedded() {
 				name = slot + "." + name
 			} else {
 				name = slot
 			}
-			walkIndices(st, sv.F[i], u.Field(i).Type(), name, depth+1, visit, ptrVisit)
+			walkIndicesK(st, sv.F[i], u.Field(i).Type(), name, k, depth+1, visit, ptrVisit)
 		}
 	case *types.Slice:
 		sl, ok := av.(SliceV)
@@ -273,7 +287,7 @@ func walkIndices(st *State, av AV, t types.Type, slot string, depth int, visit f
 		}
 		if n, ok := sl.Len.constVal(); ok && n <= 32 {
 			for i := int64(0); i < n; i++ {
-				walkIndices(st, st.mem.read(sl.Arr, fmt.Sprintf("[%d]", i), u.Elem(), nil), u.Elem(), slot, depth+1, visit, ptrVisit)
+				walkIndicesK(st, st.mem.read(sl.Arr, fmt.Sprintf("[%d]", i), u.Elem(), nil), u.Elem(), slot, key, depth+1, visit, ptrVisit)
 			}
 		}
 	}
@@ -377,6 +391,181 @@ func (w *world) checkEmittedIndices(a *agg, rg *ranger, x *Exec, r *PathResult, 
 					a.hold("DEDUP-2", construct, pos, "optional index: nil or a value of range "+rr.String())
 				}
 			})
+		}
+	}
+}
+
+// gltfRefs: which top-level array each index slot of the document model refers to (glTF 2.0 schema;
+// keyed by Struct.Field, value = element type of the referenced array). Slots that index an array
+// inside the same object (animation.channel.sampler) are not references to a top-level array.
+var gltfRefs = map[string]string{
+	"Scene.Nodes": "Node", "Node.Mesh": "Mesh", "Node.Skin": "Skin", "Node.Children": "Node", "Node.Camera": "Camera",
+	"Primitive.Indices": "Accessor", "Primitive.Attributes": "Accessor", "Primitive.Material": "Material", "Primitive.Targets": "Accessor",
+	"Texture.Sampler": "Sampler", "Texture.Source": "Image", "TextureInfo.Index": "Texture",
+	"Accessor.BufferView": "BufferView", "Image.BufferView": "BufferView",
+	"Skin.InverseBindMatrices": "Accessor", "Skin.Skeleton": "Node", "Skin.Joints": "Node",
+	"AnimationSampler.Input": "Accessor", "AnimationSampler.Output": "Accessor", "AnimationChannelTarget.Node": "Node",
+}
+
+// writerArrayOf: the Writer slice field whose elements are of the named document type.
+func (w *world) writerArrayOf(elem string) string {
+	for i := 0; i < w.wstruct.NumFields(); i++ {
+		f := w.wstruct.Field(i)
+		if sl, ok := f.Type().Underlying().(*types.Slice); ok {
+			if n := ssau.NamedOf(sl.Elem()); n != nil && n.Obj().Pkg() == w.tpkg && n.Obj().Name() == elem {
+				if _, isPtr := sl.Elem().(*types.Pointer); !isPtr {
+					return f.Name()
+				}
+			}
+		}
+	}
+	return ""
+}
+
+// indexListFields: Writer fields of integer-slice type that the package stores into an index slot of
+// the document (w.scene → Scene.Nodes): they inherit the slot's reference.
+func (w *world) indexListFields() map[*types.Var]string {
+	out := map[*types.Var]string{}
+	for _, fn := range w.fns {
+		ssau.AllInstrs(fn, func(in ssa.Instruction) {
+			st, ok := in.(*ssa.Store)
+			if !ok {
+				return
+			}
+			fa, ok := st.Addr.(*ssa.FieldAddr)
+			if !ok {
+				return
+			}
+			f := ssau.FieldOf(fa)
+			n := ssau.NamedOf(fa.X.Type())
+			if f == nil || n == nil || n.Obj().Pkg() != w.tpkg {
+				return
+			}
+			key := n.Obj().Name() + "." + f.Name()
+			if gltfRefs[key] == "" {
+				return
+			}
+			u, ok := stripChange(st.Val).(*ssa.UnOp)
+			if !ok {
+				return
+			}
+			wfa, ok := u.X.(*ssa.FieldAddr)
+			if !ok || !w.isWriterType(wfa.X.Type()) {
+				return
+			}
+			if wf := ssau.FieldOf(wfa); wf != nil {
+				if sl, ok := wf.Type().Underlying().(*types.Slice); ok && isIntType(sl.Elem()) {
+					out[wf] = key
+				}
+			}
+		})
+	}
+	return out
+}
+
+// checkIndexProvenance: REF-2. An integer written into an index slot of the document is a position
+// in the array that slot refers to: len(w.<array>) taken around the matching append, a value returned
+// by a helper / read from a table all of whose values are such positions, or a constant inside a
+// freshly assigned array. A loop counter over input data, a length of something else, or a position
+// in a different array is a violation; what cannot be classified carries no obligation.
+func (w *world) checkIndexProvenance(a *agg, rg *ranger, x *Exec, r *PathResult, fname string, lists map[*types.Var]string) {
+	st := r.St
+	P := w.c.P
+	judge := func(p Poly, slot, key string, in ssa.Instruction) {
+		elem := gltfRefs[key]
+		if elem == "" {
+			return
+		}
+		target := w.writerArrayOf(elem)
+		if target == "" {
+			return
+		}
+		construct := fmt.Sprintf("%s#%s→w.%s", fname, slot, target)
+		pos := P.Pos(ssau.PosOf(in))
+		if _, isC := p.constVal(); isC {
+			return // constants: range rule (DEDUP-2 emit) and REF-1 cover them
+		}
+		syms := p.symbols()
+		if len(syms) != 1 || p.t[syms[0]] != 1 {
+			return // sums of several quantities (base + joint offset): not classified
+		}
+		s := syms[0]
+		if fld, ok := lenSymField(s, x.externs); ok {
+			if fld == target {
+				a.hold("REF-2", construct, pos, "position "+p.String()+" in w."+target)
+			} else {
+				a.violate("REF-2", construct, pos, fmt.Sprintf("%s is a position in w.%s, but the slot %s refers to w.%s", p, fld, slot, target))
+			}
+			return
+		}
+		if strings.HasPrefix(s, "φ(") {
+			// a counter of a loop that scans the referenced array itself names an existing element of it
+			if dot := strings.LastIndexByte(s, '.'); dot > 2 {
+				if info := x.loopInfos[s[len("φ("):dot]]; info != nil && info.TripOK && info.IV[s] {
+					tsyms := info.Trip.symbols()
+					if len(tsyms) == 1 && info.Trip.equal(psym(tsyms[0])) {
+						if fld, ok := lenSymField(tsyms[0], x.externs); ok && fld == target && p.equal(psym(s).sub(pconst(info.IVInit[s]))) {
+							a.hold("REF-2", construct, pos, "index of an existing element found by scanning w."+target)
+							return
+						}
+					}
+				}
+			}
+		}
+		if strings.HasPrefix(s, "φ(") || strings.HasPrefix(s, "loopout(") {
+			a.violate("REF-2", construct, pos, fmt.Sprintf("the slot %s (an index into w.%s) receives %s, a loop counter, not len(w.%s) taken at the append: as soon as an iteration appends no element, or the array is not empty at the start, the reference names another element or none", slot, target, p, target))
+			return
+		}
+		v := valueWithPoly(st, p)
+		if v == nil {
+			return
+		}
+		rr := rg.value(v)
+		switch {
+		case rr.unknown:
+			return
+		case rr.nonpos:
+			a.violate("REF-2", construct, pos, fmt.Sprintf("the slot %s (an index into w.%s) receives a value that can be a count or counter rather than a position in w.%s (range %s)", slot, target, target, rr))
+		case len(rr.pos) > 0:
+			for f := range rr.pos {
+				if f != target {
+					a.violate("REF-2", construct, pos, fmt.Sprintf("the slot %s refers to w.%s but can receive a position in w.%s", slot, target, f))
+					return
+				}
+			}
+			a.hold("REF-2", construct, pos, "value produced as a position in w."+target+" (by a helper / table)")
+		}
+	}
+	for _, e := range st.events {
+		if e.Depth != 0 || (e.Kind != "append" && e.Kind != "overwrite") || e.Field == nil {
+			continue
+		}
+		sl, ok := e.Field.Type().Underlying().(*types.Slice)
+		if !ok {
+			continue
+		}
+		var elems []AV
+		if e.Kind == "append" {
+			elems = e.Elems
+		} else if sv, ok := e.New.(SliceV); ok && sv.Arr != nil && !sv.Arr.Opaque {
+			if n, ok := sv.Len.constVal(); ok && n <= 32 {
+				for i := int64(0); i < n; i++ {
+					elems = append(elems, st.mem.read(sv.Arr, fmt.Sprintf("[%d]", i), sl.Elem(), nil))
+				}
+			}
+		}
+		if key, isList := lists[e.Field]; isList {
+			for _, el := range elems {
+				if n, ok := el.(Num); ok {
+					judge(n.P, e.Field.Name(), key, e.Instr)
+				}
+			}
+			continue
+		}
+		for _, el := range elems {
+			walkIndicesK(st, el, sl.Elem(), e.Field.Name(), "", 0, func(p Poly, slot, key string) {
+				judge(p, slot, key, e.Instr)
+			}, nil)
 		}
 	}
 }
